@@ -103,6 +103,12 @@ CHECKS = {
   note="Go offers no controllable scheduler: implementation-level interleavings are widened at the gate and otherwise sampled; 'no data race' is the race detector's verdict on the executions performed.",
   technique="TLA+ lock-protocol models checked exhaustively by TLC; race-detector executions of model-derived concurrent mixes with a verif gate; sequential-equivalence comparison",
   design_ref="DESIGN.md 5/C20"),
+ "C18": dict(
+  category="model_checking",
+  text="DotSyntax.tla is a character-level DOT lexer (identifier, quoted string with escapes, '->') feeding a statement-level grammar (digraph/subgraph, node, edge, attribute lists) as ONE state machine that consumes one character per step; the trace is the real `pprof -dot` output, and NeverReject, EndsAccepting, EdgesReferenceDeclaredNodes and IdsUnique are evaluated per document (about 2 million TLC states per quick run). Callgrind.tla is a line-level machine over the tokenised real -callgrind output: only grammar lines, every (n) back-reference defined earlier in its name space, no id or name defined twice, positions absolute or relative to the previous entry and decoding to an address of the profile. EmitSites.tla generates the inputs: 12 sites at which profile text enters the outputs x payloads of 1-2 metacharacter classes x call_tree x granularity; HTML pages /top, /flamegraph, /peek, /source are scanned for a planted marker reaching the page unescaped.",
+  note="No Graphviz in the sandbox: validity = acceptance by the DOT grammar as written in the specification. HTML by marker scan only.",
+  technique="TLA+ character-level grammar machines validated by TLC against the real DOT/callgrind output; TLC-enumerated (site, payload, option) inputs",
+  design_ref="DESIGN.md 5/C18"),
 }
 
 NOT_YET = "check not built yet in this session (planned in DESIGN.md section 5)"
